@@ -16,9 +16,14 @@ Section Pass.
 Variable src : str.
 Variable e : env.
 Hypothesis Hd : dv e = impl_flags.
+(** [um = false]: the stream is known to contain no not-modelled marker (then the not-modelled outcome is
+    excluded as well); [um = true]: no such knowledge. *)
+Variable um : bool.
 
 Notation ok := (span_ok src).
-Definition wf (ts : list lexitem) : Prop := Forall (item_wf src) ts.
+Definition item_ok (it : lexitem) : Prop :=
+  item_wf src it /\ (um = false -> forall sp, it <> LUnmodelled sp).
+Definition wf (ts : list lexitem) : Prop := Forall item_ok ts.
 
 (** What a returned error must satisfy: a non-empty list of expected tokens (otherwise
     [Lookahead::error] hits [unreachable!]), a good span unless it is the end-of-input span, and it is
@@ -35,7 +40,7 @@ Definition outcome {A} (P : A -> Prop) (L : nat -> Prop) (res : pres A) : Prop :
   match res with
   | POk a r => P a /\ wf r /\ L (length r)
   | PErr x => err_ok x
-  | PUnmodelled => True
+  | PUnmodelled => um = true
   | PPanic _ | PFuel => False
   end.
 
@@ -76,18 +81,22 @@ Qed.
 
 (* ------------------------------------------------------------------ the stream *)
 
-Lemma wf_inv x r : wf (x :: r) -> item_wf src x /\ wf r.
+Lemma wf_inv x r : wf (x :: r) -> item_ok x /\ wf r.
 Proof. intros H. inversion H; subst. auto. Qed.
+
+Lemma um_true sp : item_ok (LUnmodelled sp) -> um = true.
+Proof. intros [_ H]. destruct um; [reflexivity|]. exfalso. now apply (H eq_refl sp). Qed.
 
 (** Case analysis on the head of a well-formed stream; the impossible heads are discharged. *)
 Ltac heads ts Hwf :=
   let t := fresh "t" in let r := fresh "r" in let Hi := fresh "Hi" in let Hr := fresh "Hwr" in
+  let Hum := fresh "Hum" in
   destruct ts as [|[t|?le ?lsp|?usp| |] r];
-  [ | apply wf_inv in Hwf; destruct Hwf as [Hi Hr]
-    | apply wf_inv in Hwf; destruct Hwf as [Hi Hr]; cbn [item_wf] in Hi
-    | apply wf_inv in Hwf; destruct Hwf as [Hi Hr]
-    | apply wf_inv in Hwf; destruct Hwf as [Hi Hr]; cbn [item_wf] in Hi; contradiction
-    | apply wf_inv in Hwf; destruct Hwf as [Hi Hr]; cbn [item_wf] in Hi; contradiction ].
+  [ | apply wf_inv in Hwf; destruct Hwf as [[Hi _] Hr]
+    | apply wf_inv in Hwf; destruct Hwf as [[Hi _] Hr]; cbn [item_wf] in Hi
+    | apply wf_inv in Hwf; destruct Hwf as [Hi Hr]; pose proof (um_true _ Hi) as Hum
+    | apply wf_inv in Hwf; destruct Hwf as [[Hi _] Hr]; cbn [item_wf] in Hi; contradiction
+    | apply wf_inv in Hwf; destruct Hwf as [[Hi _] Hr]; cbn [item_wf] in Hi; contradiction ].
 
 Definition tokP (k : token) (t : rtoken) : Prop := tk t = k /\ item_wf src (LTok t).
 
@@ -100,7 +109,7 @@ Proof. intros [_ (_ & _ & _ & _ & H)]. exact H. Qed.
 Lemma docs_of_ok ts : wf ts -> Forall ok (docs_spans (docs_of ts)).
 Proof.
   intros H. destruct ts as [|[t| | | |] r]; cbn [docs_of docs_spans map]; try constructor.
-  apply wf_inv in H. destruct H as [(_ & _ & _ & _ & H) _]. exact H.
+  apply wf_inv in H. destruct H as [[(_ & _ & _ & _ & H) _] _]. exact H.
 Qed.
 
 Lemma stuck_out {A} (P : A -> Prop) L ts at_eof :
@@ -507,6 +516,9 @@ Ltac gdelim PA lem :=
 
 Ltac kont a r Pa Hr Hl := intros a r Pa Hr Hl; cbv beta in Hl.
 
+Lemma match_list_same {X Y} (l : list X) (y : Y) : match l with [] => y | _ :: _ => y end = y.
+Proof. now destruct l. Qed.
+
 Lemma peek_in_tok first ts : peek_in first ts = true -> exists t r, ts = LTok t :: r.
 Proof.
   unfold peek_in. destruct (peek_kind ts) as [k|] eqn:E; [|discriminate]. intros _.
@@ -664,8 +676,7 @@ Proof.
   gbind parse_token_out. gbind parse_use_path_good. gbind parse_token_out. gbind parse_token_out.
   gdelim (fun u => Forall ok (use_item_spans u)) parse_use_item_good.
   rewrite Hd. cbn [empty_use_items impl_flags].
-  assert (Hm : (match items with [] => POk tt r3 | _ :: _ => POk tt r3 end) = POk tt r3) by (destruct items; reflexivity).
-  rewrite Hm. cbn [bind].
+  rewrite match_list_same. cbn [bind].
   gbind parse_token_out. gbind parse_token_out. gret.
 Qed.
 
@@ -765,8 +776,7 @@ Proof.
   - intros r2 Hr2 Hl2. apply outcome_lt_le. gbind parse_token_out.
     gdelim (fun i => Forall ok (include_item_spans i)) parse_include_item_good.
     rewrite Hd. cbn [empty_include_with impl_flags].
-    assert (Hm : (match items with [] => POk tt r1 | _ :: _ => POk tt r1 end) = POk tt r1) by (destruct items; reflexivity).
-    rewrite Hm. cbn [bind]. gbind parse_token_out.
+    rewrite match_list_same. cbn [bind]. gbind parse_token_out.
     cbn [outcome]. split; [assumption|split; [assumption|lenf]].
   - kont w_ r6 Pw Hr6 Hl6. gbind parse_token_out. cbn [outcome]. split; [|split; [assumption|lenf]].
     destruct w_; spans.
@@ -815,7 +825,7 @@ Proof.
   intros Hs ts Hwf Hb Hf. unfold parse_inst_arg.
   destruct (peek_kind ts) as [k|] eqn:Ek; [|lafail].
   destruct (token_eqb k TEllipsis).
-  - destruct (peek_kind_tok _ _ Ek) as (t & r & -> & _). apply wf_inv in Hwf. destruct Hwf as [Hi Hr].
+  - destruct (peek_kind_tok _ _ Ek) as (t & r & -> & _). apply wf_inv in Hwf. destruct Hwf as [[Hi _] Hr].
     pose proof (item_wf_span _ _ Hi) as Hts. cbn [any_tok bind].
     destruct (peek_in [TComma; TCloseBrace] r).
     + cbn [outcome]. split; [spans|split; [assumption|lenf]].
